@@ -35,3 +35,15 @@ Theorem C15_serializers_agree_on_graph_names :
     encode_graph_term Generic g t = encode_graph_term Rdflib (graph_corr g) t.
 Proof. exact encode_graph_term_agree. Qed.
 Print Assumptions C15_serializers_agree_on_graph_names.
+
+(* whole quad statements: an rdflib encode_quad is the generic encode_quad on the corresponding
+   quad (default-graph IRI read as the default graph), same rows, same tables; only the spelling of
+   the remembered graph term differs *)
+From PJ.Proofs Require Import EncRdflibQuads.
+Theorem C15_serializers_agree_on_quads :
+  forall (terms : list term) (t : tenc) (rp : repeated) (t' : tenc) (rp' : repeated) (rows : list row),
+    spo_rdf11 terms = true -> rep_ok rp ->
+    encode_quad Rdflib terms t rp = Ok (t', rp', rows) ->
+    encode_quad Generic (quad_inv terms) t (rep_inv rp) = Ok (t', rep_inv rp', rows) /\ rep_ok rp'.
+Proof. exact encode_quad_rdflib. Qed.
+Print Assumptions C15_serializers_agree_on_quads.
